@@ -2,7 +2,9 @@
    Statements only; proofs live in C11/Proofs*.v.  Model: C11/Model.v (transcription of
    psutil/_pslinux.py NetConnections + _check_conn_kind), tables dumped from the code on every run:
    Gen/C11_Tables.v (gen_tmap, gen_conn_tmap, gen_tcp_statuses, socket constants),
-   specification (kernel printers, demanded rows): C11/Spec.v. *)
+   specification (kernel printers, demanded rows): C11/Spec.v.
+   [current] is the code as it is now; [before_repairs] the code before the fixes d36edd1 (get_all_inodes keeps
+   every holder) and 9cf9292 (the UNIX name is cut after the single blank that follows the inode). *)
 From PV Require Import C11.Spec C11.ProofsTables C11.ProofsAddr C11.Proofs.
 
 (* ---- the tables of the code, as they are now *)
@@ -44,9 +46,9 @@ Print Assumptions C11_tcp_status_table.
 
 (* any other string as kind: ValueError, whatever the files and descriptor tables hold
    (nothing is read: the answer does not depend on them), system-wide and per process *)
-Theorem C11_unknown_kind : forall le files procs pid ls k, ~ In k kinds ->
-  net_connections le files procs k = Exc ValueError
-  /\ proc_net_connections le files pid ls k = Exc ValueError.
+Theorem C11_unknown_kind : forall v le files procs pid ls k, ~ In k kinds ->
+  net_connections v le files procs k = Exc ValueError
+  /\ proc_net_connections v le files pid ls k = Exc ValueError.
 Proof. intros. split; [now apply unknown_kind_sys|now apply unknown_kind_proc]. Qed.
 Print Assumptions C11_unknown_kind.
 
@@ -57,32 +59,59 @@ Theorem C11_addr_roundtrip : forall le ip port, wf_ip ip = true -> wf_port port 
 Proof. exact addr_roundtrip. Qed.
 Print Assumptions C11_addr_roundtrip.
 
-(* ---- the whole answer, system-wide: for every kernel state and each of the 11 kinds the call succeeds and
-   returns, in table order, exactly one row per demanded entry: the sockets of the kind's (family, type)
-   classes, addresses and port decoded, TCP state name / NONE, UNIX name, owner = a holder (pid, fd) or
-   (None, -1) when no holder is visible, one row per holder for UNIX sockets.
-   Excluded (decidable, only for kinds covering UNIX sockets; both refuted below): a UNIX socket held by two
-   processes, a UNIX name starting with white space. *)
+(* ---- the whole answer, system-wide: for every kernel state (any number of sockets, processes, descriptors; sockets
+   shared between processes; UNIX names with leading / trailing / repeated blanks, @abstract names) and each of the
+   11 kinds the call succeeds and returns, in table order, exactly one row per demanded entry: the sockets of the kind's
+   (family, type) classes, addresses and port decoded, TCP state name / NONE, UNIX name, owner = a holder (pid, fd) or
+   (None, -1) when no holder is visible, one row per holder for UNIX sockets.  No exclusion. *)
 Theorem C11_system_wide : forall le st kind,
   wf_state st = true -> files_text_safe le st = true -> In kind kinds ->
-  (covers_unix kind = true -> unix_unshared st = true /\ no_lead_ws st = true) ->
-  exists rows, net_connections le (k_files le st) (to_procs (k_procs st)) kind = Val rows
+  exists rows, net_connections current le (k_files le st) (to_procs (k_procs st)) kind = Val rows
                /\ Forall2 row_ok rows (spec_sys kind st).
-Proof. exact system_wide. Qed.
+Proof. exact system_wide_current. Qed.
 Print Assumptions C11_system_wide.
 
-(* ---- per process (any process with a readable fd directory, sharing allowed): only that process's
-   sockets, one row per socket (TCP/UDP, any of its descriptors) / per descriptor (UNIX) *)
+(* sharper than the property asks: a TCP/UDP socket held through several descriptors is reported with its first
+   holder in the order the process and descriptor tables are scanned *)
+Theorem C11_system_wide_first_holder : forall le st kind,
+  wf_state st = true -> files_text_safe le st = true -> In kind kinds ->
+  exists rows, net_connections current le (k_files le st) (to_procs (k_procs st)) kind = Val rows
+               /\ Forall2 row_ok rows (spec_sys_first kind st).
+Proof. exact system_wide_first_current. Qed.
+Print Assumptions C11_system_wide_first_holder.
+
+(* ---- per process (any process with a readable fd directory): only that process's sockets, one row per socket
+   (TCP/UDP, any of its descriptors) / per descriptor (UNIX) *)
 Theorem C11_per_process : forall le st p kind,
   wf_state st = true -> files_text_safe le st = true -> wf_kproc p = true -> p_visible p = true ->
-  In kind kinds -> (covers_unix kind = true -> no_lead_ws st = true) ->
-  exists rows, proc_net_connections le (k_files le st) (p_pid p) (to_listing p) kind = Val rows
+  In kind kinds ->
+  exists rows, proc_net_connections current le (k_files le st) (p_pid p) (to_listing p) kind = Val rows
                /\ Forall2 row_ok rows (spec_proc p kind st).
-Proof. exact per_process. Qed.
+Proof. exact per_process_current. Qed.
 Print Assumptions C11_per_process.
 
-(* the hypotheses are satisfied by a state with a TCP socket held by two processes, a hidden holder,
-   an absent tcp6 file, a UNIX name with a blank and an abstract name *)
+(* the same two statements for either variant of the code: before the repairs exactly two classes had to be
+   excluded (UNIX socket held by two processes; UNIX name starting with white space) *)
+Theorem C11_system_wide_any_variant : forall v le st kind,
+  wf_state st = true -> files_text_safe le st = true -> In kind kinds ->
+  (covers_unix kind = true -> (v_merge v = true \/ unix_unshared st = true)
+                              /\ (v_exact v = true \/ no_lead_ws st = true)) ->
+  exists rows, net_connections v le (k_files le st) (to_procs (k_procs st)) kind = Val rows
+               /\ Forall2 row_ok rows (spec_sys kind st).
+Proof. exact system_wide. Qed.
+Print Assumptions C11_system_wide_any_variant.
+
+Theorem C11_per_process_any_variant : forall v le st p kind,
+  wf_state st = true -> files_text_safe le st = true -> wf_kproc p = true -> p_visible p = true ->
+  In kind kinds -> (covers_unix kind = true -> v_exact v = true \/ no_lead_ws st = true) ->
+  exists rows, proc_net_connections v le (k_files le st) (p_pid p) (to_listing p) kind = Val rows
+               /\ Forall2 row_ok rows (spec_proc p kind st).
+Proof. exact per_process. Qed.
+Print Assumptions C11_per_process_any_variant.
+
+(* the hypotheses are satisfied by concrete states: a TCP socket held by two processes, a hidden holder, an absent
+   tcp6 file, a UNIX name with a blank and an abstract name (first), and additionally a UNIX socket shared between
+   two processes whose name starts with a blank (second) *)
 Theorem C11_hypotheses_satisfiable :
   let st := ex_state false (bs "/tmp/a b") in
   wf_state st = true /\ files_text_safe true st = true /\ unix_unshared st = true /\ no_lead_ws st = true
@@ -90,11 +119,18 @@ Theorem C11_hypotheses_satisfiable :
 Proof. exact hypotheses_satisfiable. Qed.
 Print Assumptions C11_hypotheses_satisfiable.
 
-(* ---- findings: the two excluded classes really fail *)
+Theorem C11_full_domain_example :
+  let st := ex_state true (bs " lead") in
+  wf_state st = true /\ files_text_safe true st = true /\ unix_unshared st = false /\ no_lead_ws st = false
+  /\ length (spec_sys (bs "all") st) = 6%nat.
+Proof. exact full_domain_example. Qed.
+Print Assumptions C11_full_domain_example.
+
+(* ---- the repaired defects: the code before the repairs really failed on the two excluded classes ... *)
 Theorem C11_unix_shared_refuted :
   exists st, wf_state st = true /\ files_text_safe true st = true /\ no_lead_ws st = true
              /\ unix_unshared st = false
-             /\ exists rows, net_connections true (k_files true st) (to_procs (k_procs st)) (bs "unix") = Val rows
+             /\ exists rows, net_connections before_repairs true (k_files true st) (to_procs (k_procs st)) (bs "unix") = Val rows
                              /\ length (spec_sys (bs "unix") st) = 4%nat /\ length rows = 3%nat.
 Proof. exact unix_shared_refuted. Qed.
 Print Assumptions C11_unix_shared_refuted.
@@ -102,15 +138,27 @@ Print Assumptions C11_unix_shared_refuted.
 Theorem C11_unix_lead_ws_refuted :
   exists st, wf_state st = true /\ files_text_safe true st = true /\ unix_unshared st = true
              /\ no_lead_ws st = false
-             /\ exists rows, net_connections true (k_files true st) (to_procs (k_procs st)) (bs "unix") = Val rows
+             /\ exists rows, net_connections before_repairs true (k_files true st) (to_procs (k_procs st)) (bs "unix") = Val rows
                              /\ map e_laddr (spec_sys (bs "unix") st) = [APath (bs " lead"); APath (bs "@abstract name")]
                              /\ map r_laddr rows = [APath (bs "lead"); APath (bs "@abstract name")].
 Proof. exact unix_lead_ws_refuted. Qed.
 Print Assumptions C11_unix_lead_ws_refuted.
 
-(* the repaired defect (b838598): a UNIX path with a blank is returned whole *)
+(* ... and the current code gives the demanded answer on the same two states (4 rows; " lead" kept) *)
+Theorem C11_repaired_witnesses :
+  let v := current in
+  (exists rows, net_connections v true (k_files true (ex_state true (bs "/tmp/a b")))
+                                (to_procs (k_procs (ex_state true (bs "/tmp/a b")))) (bs "unix") = Val rows
+                /\ length rows = 4%nat)
+  /\ (exists rows, net_connections v true (k_files true (ex_state false (bs " lead")))
+                                   (to_procs (k_procs (ex_state false (bs " lead")))) (bs "unix") = Val rows
+                   /\ map r_laddr rows = [APath (bs " lead"); APath (bs "@abstract name")]).
+Proof. exact repaired_witnesses. Qed.
+Print Assumptions C11_repaired_witnesses.
+
+(* the defect repaired by b838598: a UNIX path with a blank is returned whole *)
 Theorem C11_unix_path_with_blank :
-  exists rows, net_connections true (k_files true (ex_state false (bs "/tmp/a b")))
+  exists rows, net_connections current true (k_files true (ex_state false (bs "/tmp/a b")))
                                (to_procs (k_procs (ex_state false (bs "/tmp/a b")))) (bs "unix") = Val rows
                /\ map r_laddr rows = [APath (bs "/tmp/a b"); APath (bs "@abstract name")].
 Proof. exact unix_path_with_blank. Qed.
